@@ -1,6 +1,6 @@
 (* driver.ml (C10) — line protocol for the EVM oracle; parsing and printing only.
    input :  ALU <OP> a b c
-            RUN gas static origin gasprice coinbase timestamp number difficulty gaslimit chainid basefee to value input mastertopic
+            RUN gas static origin gasprice coinbase timestamp number difficulty gaslimit chainid basefee to value input mastertopic fork
                 | A addr balance code master .. | S addr key val .. | newaddr newaddr .. | H preimage hash ..
             numbers in hex, byte strings in hex ("-" = empty)
    output:  ALU -> result
@@ -71,13 +71,13 @@ let handle line =
   match split_on "|" (split_ws line) with
   | [ [ "ALU"; op; a; b; c ] ] -> hex_of_z (i_alu (alu_of_string op) (z_of_hex a) (z_of_hex b) (z_of_hex c))
   | [ [ "RUN"; gas; static; origin; gasprice; coinbase; timestamp; number; difficulty; gaslimit; chainid; basefee; to_; value;
-        input; mastertopic ];
+        input; mastertopic; fork ];
       accts; store; newaddrs; hashes ] ->
     let e = { e_origin = z_of_hex origin; e_gasprice = z_of_hex gasprice;
               e_coinbase = z_of_hex coinbase; e_timestamp = z_of_hex timestamp; e_number = z_of_hex number;
               e_difficulty = z_of_hex difficulty; e_gaslimit = z_of_hex gaslimit; e_chainid = z_of_hex chainid;
               e_basefee = z_of_hex basefee; e_newaddrs = List.map z_of_hex newaddrs; e_hashes = parse_hashes hashes;
-              e_master_topic = z_of_hex mastertopic } in
+              e_master_topic = z_of_hex mastertopic; e_fork = z_of_hex fork } in
     let w = { w_accts = parse_accts accts; w_store = parse_store store; w_logs = []; w_refund = Z0; w_transfers = [];
               w_suicided = [] } in
     let r = call_top (fuel_for gas) e (bool_of_tok static) (z_of_hex to_) (z_of_hex value) (bytes_of_hex input) (z_of_hex gas) w in
